@@ -27,11 +27,11 @@ func InvalidHeaderValue(h *spec.Header, variant int) (string, bool) {
 	pickv := func(xs ...string) string { return xs[variant%len(xs)] }
 	switch h.Type {
 	case "integer":
-		return pickv("abc", "1.5", "1e3", "12a"), true
+		return pickv("abc", "1.5", "1e3", "12a", "\xff12", "caf\xe9"), true
 	case "number":
-		return pickv("abc", "--1", "1,5"), true
+		return pickv("abc", "--1", "1,5", "1.\xfe"), true
 	case "boolean":
-		return pickv("yes", "2", "maybe"), true
+		return pickv("yes", "2", "maybe", "tru\xe9"), true
 	case "array":
 		return "", false
 	}
@@ -173,7 +173,7 @@ func (propC09) Draw(rt *rapid.T, w *WorldDesc, mode string) *Plan {
 			case "empty":
 				raw.Headers = append(raw.Headers, [2]string{name, ""})
 			case "invalid":
-				v, ok := InvalidHeaderValue(h, rapid.IntRange(0, 3).Draw(rt, hl+".variant"))
+				v, ok := InvalidHeaderValue(h, rapid.IntRange(0, 5).Draw(rt, hl+".variant"))
 				if !ok {
 					state = "absent"
 				} else {
